@@ -23,7 +23,7 @@ theorem invoked_gated (decls : List Decl) (m : Option Mem) (P : Store) (e : Even
   · simp only [hs, Bool.false_eq_true, if_false] at h
     have := (invoked_selected_awake _ P e.now e.now1 e.exec (selected_sub_owned decls (recall m e) e) i n h).1
     simp only [cfgOf, selectedOf, List.mem_map, List.mem_filter, Bool.and_eq_true] at this
-    obtain ⟨d, ⟨hd, hg, hm⟩, rfl⟩ := this
+    obtain ⟨d, ⟨hd, ⟨hg, hm⟩, _⟩, rfl⟩ := this
     exact ⟨d, hd, rfl, hg, hm⟩
 
 /-- A resume handler is only ever invoked for an object first seen in a listing and not yet fully
@@ -104,20 +104,6 @@ theorem after_fully_handled_never (decls : List Decl) (events : List Event) :
       rw [hm'] at hl
       exact ih mem' _ hf' (fun e' he' => hdel e' (by simp [he'])) l hl i n hin hres
 
-/-- The guard of the partial theorems, for one event: the last-handled state stays in place (nobody
-    wipes the annotation), and the resume handler keeps matching the object (filters; opt-in when the
-    object is being deleted). -/
-def Stable (d : Decl) (e : Event) : Prop :=
-  e.oldAbsent = false ∧ e.matchF d.id = true ∧ (e.marked = true → d.gate.deletedOptIn = true)
-
-/-- … demanded only of the events processed while the object is not yet fully handled in this process
-    (afterwards nothing is demanded: `after_fully_handled_never`). A guard over the run itself. -/
-def StableWhileOpen (decls : List Decl) (d : Decl) : Option Mem → Store → List Event → Prop
-  | _, _, [] => True
-  | m, P, e :: rest =>
-      ((recall m e).fullyHandled = false → Stable d e) ∧
-      StableWhileOpen decls d (step decls m P e).mem (step decls m P e).P rest
-
 theorem reason_not_create (mem : Mem) (e : Event) (h : e.oldAbsent = false) :
     C05.detectReason (inOf mem e) ≠ .create := by
   unfold C05.detectReason inOf
@@ -136,13 +122,16 @@ theorem reason_not_noop_of_initial (mem : Mem) (e : Event)
   cases e.deleted <;> cases e.marked <;> cases e.blocked <;> cases e.oldAbsent <;>
     cases e.diffNonEmpty <;> simp [reasonStr]
 
-theorem stable_selected (decls : List Decl) (d : Decl) (hd : d ∈ decls)
+
+/-- A matching resume handler of an object still to be resumed, not yet finished in this process, is selected. -/
+theorem matching_selected (decls : List Decl) (d : Decl) (hd : d ∈ decls)
     (hini : d.gate.initial = true) (hreason : d.gate.reason = none)
-    (mem : Mem) (hn : mem.noticed = true) (hf : mem.fullyHandled = false) (e : Event) (hs : Stable d e) :
+    (mem : Mem) (hn : mem.noticed = true) (hf : mem.fullyHandled = false) (hnr : d.id ∉ mem.resumed)
+    (e : Event) (hold : e.oldAbsent = false) (hmatch : e.matchF d.id = true)
+    (hopt : e.marked = true → d.gate.deletedOptIn = true) :
     d.id ∈ (cfgOf decls mem e).selected := by
-  obtain ⟨hold, hmatch, hopt⟩ := hs
   simp only [cfgOf, selectedOf, List.mem_map, List.mem_filter, Bool.and_eq_true]
-  refine ⟨d, ⟨hd, ?_, hmatch⟩, rfl⟩
+  refine ⟨d, ⟨hd, ⟨?_, hmatch⟩, by simp [hnr]⟩, rfl⟩
   have hcm : (causeOf mem e).marked = e.marked := rfl
   have hcinit : (causeOf mem e).initial =
       (if C05.detectReason (inOf mem e) = .create then false else (mem.noticed && !mem.fullyHandled)) := rfl
@@ -152,122 +141,6 @@ theorem stable_selected (decls : List Decl) (d : Decl) (hd : d ∈ decls)
   cases hm : e.marked
   · simp
   · simp [hopt hm]
-
-/-- FULL STATEMENT (property): each resume handler runs to completion at most once per object per
-    operator process. PROVED HERE under `StableWhileOpen` (see `flipflop_reruns_witness` for why the guard is
-    needed: the code does re-run a finished resume handler whose record was purged while a sibling was
-    still pending and the handler temporarily stopped matching). -/
-theorem resume_never_again_partial (decls : List Decl) (d : Decl) (hd : d ∈ decls)
-    (hini : d.gate.initial = true) (hreason : d.gate.reason = none)
-    (huniq : ∀ d' ∈ decls, d'.id = d.id → d' = d) (events : List Event) :
-    ∀ (mem : Mem) (P : Store), UniformOn (decls.map (·.id)) P → mem.noticed = true →
-      (mem.fullyHandled = true ∨ ∃ r, P d.id = some r ∧ r.finished = true) →
-      (∀ e ∈ events, e.deleted = false) →
-      StableWhileOpen decls d (some mem) P events →
-      ∀ l ∈ run decls (some mem) P events, ∀ n, (d.id, n) ∉ l := by
-  induction events with
-  | nil => intro mem P _ _ _ _ _ l hl; simp [run] at hl
-  | cons e rest ih =>
-    intro mem P hu hn hinv hdel hst l hl n
-    by_cases hf0 : mem.fullyHandled = true
-    · intro hin
-      exact after_fully_handled_never decls (e :: rest) mem P hf0 hdel l hl d.id n hin
-        (fun d' hd' hid => by rw [huniq d' hd' hid]; exact hini)
-    have hf0' : mem.fullyHandled = false := by simpa using hf0
-    have hse : Stable d e := hst.1 (by simp [recall, hf0'])
-    have hst2 := hst.2
-    have hde : e.deleted = false := hdel e (by simp)
-    simp only [run, List.mem_cons] at hl
-    have hsub := selected_sub_owned decls mem e
-    rcases hl with rfl | hl
-    · -- not invoked in this very step
-      intro hin
-      rcases hinv with hf | ⟨r, hP, hfin⟩
-      · have := (resume_invoked_only_initial decls (some mem) P e d.id n hin
-          (fun d' hd' hid => by rw [huniq d' hd' hid]; exact hini)).2.1
-        simp [recall, hf] at this
-      · unfold step at hin
-        by_cases hs : e.suppressed = true
-        · simp [hs] at hin
-        · simp only [hs, Bool.false_eq_true, if_false, recall] at hin
-          exact no_rerun _ P e.now e.now1 e.exec hsub d.id n r hP hfin hin
-    · -- the invariant carries over to the next step
-      by_cases hs : e.suppressed = true
-      · have : step decls (some mem) P e = { mem := some mem, P := P, invoked := [], closed := false } := by
-          unfold step; simp [hs, hde, recall]
-        rw [this] at hl hst2
-        exact ih mem P hu hn hinv (fun e' he' => hdel e' (by simp [he'])) hst2 l hl n
-      · have hstep : step decls (some mem) P e =
-            { mem := some { mem with fullyHandled := mem.fullyHandled ||
-                              (cycle (cfgOf decls mem e) P e.now e.now1 e.exec).closed },
-              P := (cycle (cfgOf decls mem e) P e.now e.now1 e.exec).P',
-              invoked := (cycle (cfgOf decls mem e) P e.now e.now1 e.exec).invoked,
-              closed := (cycle (cfgOf decls mem e) P e.now e.now1 e.exec).closed } := by
-          unfold step; simp [hs, hde, recall]
-        rw [hstep] at hl hst2
-        have hu' : UniformOn (decls.map (·.id)) (cycle (cfgOf decls mem e) P e.now e.now1 e.exec).P' :=
-          uniform_preserved (cfgOf decls mem e) P e.now e.now1 e.exec hsub hu
-        refine ih { mem with fullyHandled := mem.fullyHandled ||
-                      (cycle (cfgOf decls mem e) P e.now e.now1 e.exec).closed } _ hu' hn ?_
-                 (fun e' he' => hdel e' (by simp [he'])) hst2 l hl n
-        show (mem.fullyHandled || (cycle (cfgOf decls mem e) P e.now e.now1 e.exec).closed) = true ∨ _
-        by_cases hf : mem.fullyHandled = true
-        · left; simp [hf]
-        · have hf' : mem.fullyHandled = false := by simpa using hf
-          by_cases hc : (cycle (cfgOf decls mem e) P e.now e.now1 e.exec).closed = true
-          · left; simp [hc]
-          · have hc' : (cycle (cfgOf decls mem e) P e.now e.now1 e.exec).closed = false := by simpa using hc
-            right
-            rcases hinv with hf0 | ⟨r, hP, hfin⟩
-            · exact absurd hf0 hf
-            · by_cases hr : handlerReasons.contains (cfgOf decls mem e).reason = true
-              · have hsel := stable_selected decls d hd hini hreason mem hn hf' e hse
-                exact finished_persists_selected (cfgOf decls mem e) P e.now e.now1 e.exec hsub hu
-                  d.id r hsel hP hfin hr hc'
-              · have hr' : handlerReasons.contains (cfgOf decls mem e).reason = false := by simpa using hr
-                have hnn : ((cfgOf decls mem e).reason == "noop") = false :=
-                  reason_not_noop_of_initial mem e (by simp [hn, hf'])
-                rw [cycle_not_handler_reason _ P e.now e.now1 e.exec hr']
-                simp only [hnn, Bool.false_eq_true, if_false]
-                exact ⟨r, hP, hfin⟩
-
-/-- After the step in which a resume handler reached a final outcome, it is never invoked again for
-    this object in this process (under `Stable` for the rest of the history). -/
-theorem completed_never_again_partial (decls : List Decl) (d : Decl) (hd : d ∈ decls)
-    (hini : d.gate.initial = true) (hreason : d.gate.reason = none)
-    (huniq : ∀ d' ∈ decls, d'.id = d.id → d' = d)
-    (mem : Mem) (P : Store) (hu : UniformOn (decls.map (·.id)) P) (e : Event) (rest : List Event)
-    (hde : e.deleted = false) (n : Nat)
-    (hinv : (d.id, n) ∈ (step decls (some mem) P e).invoked) (hfin : (e.exec d.id n).final = true)
-    (hdel : ∀ e' ∈ rest, e'.deleted = false)
-    (hst : StableWhileOpen decls d (step decls (some mem) P e).mem (step decls (some mem) P e).P rest) :
-    ∀ l ∈ run decls (step decls (some mem) P e).mem (step decls (some mem) P e).P rest,
-      ∀ k, (d.id, k) ∉ l := by
-  have hsub := selected_sub_owned decls mem e
-  have hnot := resume_invoked_only_initial decls (some mem) P e d.id n hinv
-    (fun d' hd' hid => by rw [huniq d' hd' hid]; exact hini)
-  have hn : mem.noticed = true := by simpa [recall] using hnot.1
-  have hs : e.suppressed = false := by
-    cases hsup : e.suppressed
-    · rfl
-    · unfold step at hinv; simp [hsup] at hinv
-  have hstep : step decls (some mem) P e =
-      { mem := some { mem with fullyHandled := mem.fullyHandled ||
-                        (cycle (cfgOf decls mem e) P e.now e.now1 e.exec).closed },
-        P := (cycle (cfgOf decls mem e) P e.now e.now1 e.exec).P',
-        invoked := (cycle (cfgOf decls mem e) P e.now e.now1 e.exec).invoked,
-        closed := (cycle (cfgOf decls mem e) P e.now e.now1 e.exec).closed } := by
-    unfold step; simp [hs, hde, recall]
-  rw [hstep] at hinv hst ⊢
-  simp only at hinv
-  refine resume_never_again_partial decls d hd hini hreason huniq rest
-    { mem with fullyHandled := mem.fullyHandled || (cycle (cfgOf decls mem e) P e.now e.now1 e.exec).closed } _
-    (uniform_preserved (cfgOf decls mem e) P e.now e.now1 e.exec hsub hu) hn ?_ hdel hst
-  show (mem.fullyHandled || (cycle (cfgOf decls mem e) P e.now e.now1 e.exec).closed) = true ∨ _
-  by_cases hc : (cycle (cfgOf decls mem e) P e.now e.now1 e.exec).closed = true
-  · left; simp [hc]
-  · right
-    exact final_outcome_recorded (cfgOf decls mem e) P e.now e.now1 e.exec d.id n hinv hfin (by simpa using hc)
 
 /-- An object that exists when the operator starts (seen in the listing), was handled before (a
     last-handled state is stored), carries no progress records and is not being deleted, gets the
@@ -279,8 +152,8 @@ theorem eligible_selected (decls : List Decl) (d : Decl) (hd : d ∈ decls)
     (causeOf (recall none e) e).reason = .resume ∧ d.id ∈ (cfgOf decls (recall none e) e).selected := by
   constructor
   · simp [causeOf, C05.detect, C05.detectReason, inOf, recall, hl, hdel, hm, hold, hdiff]
-  · exact stable_selected decls d hd hini hreason (recall none e) (by simp [recall, hl]) (by simp [recall]) e
-      ⟨hold, hmatch, by simp [hm]⟩
+  · exact matching_selected decls d hd hini hreason (recall none e) (by simp [recall, hl]) (by simp [recall])
+      (by simp [recall]) e hold hmatch (by simp [hm])
 
 /-- … and (all-at-once lifecycle, nothing recorded for it yet, positive limits) it is actually invoked
     in that first cycle, as the first attempt. -/
@@ -319,67 +192,206 @@ theorem eligible_invoked (decls : List Decl) (d : Decl) (hd : d ∈ decls)
   simp only [hs, Bool.false_eq_true, if_false]
   exact hinv
 
-/-- The guard is necessary — the code does repeat a completed resume handler: `r1` (label-filtered)
-    completes, its sibling `r2` is still retrying; a label+spec edit makes `r1` stop matching while the
-    reason turns to *update*, so `r1`'s finished record is purged with the superseded progress; the
-    label flips back, `r1` is selected again with no record and runs a second time. -/
-theorem flipflop_reruns_witness :
-    ∃ (decls : List Decl) (d : Decl) (mem : Mem) (e : Event) (rest : List Event),
-      -- the hypotheses of `completed_never_again_partial`, all but the guard:
-      d ∈ decls ∧ d.gate.initial = true ∧ d.gate.reason = none ∧
-      (∀ d' ∈ decls, d'.id = d.id → d' = d) ∧
-      UniformOn (decls.map (·.id)) (fun _ => none) ∧
-      e.deleted = false ∧ (∀ e' ∈ rest, e'.deleted = false) ∧
-      (d.id, 0) ∈ (step decls (some mem) (fun _ => none) e).invoked ∧ (e.exec d.id 0).final = true ∧
-      -- … and its conclusion fails: the completed resume handler is invoked again in the same process
-      (∃ l ∈ run decls (step decls (some mem) (fun _ => none) e).mem
-                (step decls (some mem) (fun _ => none) e).P rest, (d.id, 0) ∈ l) ∧
-      -- the whole history:
-      run decls (some mem) (fun _ => none) (e :: rest) =
-        [[("r1", 0), ("r2", 0)], [("r2", 1)], [("r1", 0), ("r2", 2)]] := by
-  let ok : Outcome := { final := true, delay := none, error := false, subrefs := [] }
-  let again : Outcome := { final := false, delay := some 0, error := true, subrefs := [] }
-  let ev (diff m1 : Bool) : Event :=
-    { byListing := false, deleted := false, marked := false, blocked := false, oldAbsent := false,
-      diffNonEmpty := diff, suppressed := false,
-      matchF := fun i => if i = "r1" then m1 else true,
-      limits := fun _ => ⟨none, none⟩, lifecycle := .allAtOnce, now := 0, now1 := 0,
-      exec := fun i _ => if i = "r2" then again else ok }
-  refine ⟨[⟨"r1", ⟨none, true, false⟩⟩, ⟨"r2", ⟨none, true, false⟩⟩], ⟨"r1", ⟨none, true, false⟩⟩,
-          { noticed := true, fullyHandled := false },
-          ev false true, [ev true false, ev false true],
-          by simp, rfl, rfl, ?_, ⟨"resume", by intro i _ r h; simp at h⟩, rfl, ?_, by decide, by decide, ?_, by decide⟩
-  · intro d' hd' hid
-    simp only [List.mem_cons, List.mem_nil_iff, or_false] at hd'
-    rcases hd' with rfl | rfl
-    · rfl
-    · simp at hid
-  · intro e' he'
-    simp only [List.mem_cons, List.mem_nil_iff, or_false] at he'
-    rcases he' with rfl | rfl <;> rfl
-  · refine ⟨[("r1", 0), ("r2", 2)], ?_, by simp⟩
-    decide
+/-! ### At most once per object per process
 
--- non-vacuity of the partial theorems: two resume handlers; "r1" completes at once, "r2" retries twice;
--- an edit (update cause mixed in) and a re-listing-like repeat in between; the guard holds throughout,
--- and "r1" is indeed never invoked again
+Since /repo 6c4463d the operator remembers, per object, the resuming handlers that reached a final outcome
+in this process while the cycle is still open (`resumed_handlers`), and does not select them again; when the
+cycle closes, `fully_handled_once` takes over. The statement therefore no longer leans on the progress
+records the object carries: it holds for ANY view of them at every later event. -/
+
+/-- A resuming handler remembered as finished in this process is not selected. -/
+theorem resumed_not_selected (decls : List Decl) (mem : Mem) (e : Event) (i : Id)
+    (hres : ∀ d ∈ decls, d.id = i → d.gate.initial = true) (hin : i ∈ mem.resumed) :
+    i ∉ (cfgOf decls mem e).selected := by
+  intro hsel
+  simp only [cfgOf, selectedOf, List.mem_map, List.mem_filter, Bool.and_eq_true] at hsel
+  obtain ⟨d, ⟨hd, _, hnr⟩, hid⟩ := hsel
+  have := hres d hd hid
+  rw [hid] at hnr
+  simp [this, hin] at hnr
+
+/-- The invariant behind it: the object is fully handled, or the handler is remembered as finished. -/
+def Settled (i : Id) (m : Option Mem) : Prop :=
+  ∃ mem, m = some mem ∧ (mem.fullyHandled = true ∨ i ∈ mem.resumed)
+
+theorem settled_not_invoked (decls : List Decl) (i : Id)
+    (hres : ∀ d ∈ decls, d.id = i → d.gate.initial = true)
+    (m : Option Mem) (hs : Settled i m) (P : Store) (e : Event) (n : Nat) :
+    (i, n) ∉ (step decls m P e).invoked := by
+  obtain ⟨mem, rfl, hor⟩ := hs
+  intro hin
+  rcases hor with hf | hr
+  · have := (resume_invoked_only_initial decls (some mem) P e i n hin hres).2.1
+    simp [recall, hf] at this
+  · unfold step at hin
+    by_cases hsup : e.suppressed = true
+    · simp [hsup] at hin
+    · simp only [hsup, Bool.false_eq_true, if_false, recall] at hin
+      have hsel := (invoked_selected_awake _ P e.now e.now1 e.exec (selected_sub_owned decls mem e) i n hin).1
+      exact resumed_not_selected decls mem e i hres hr hsel
+
+theorem settled_preserved (decls : List Decl) (i : Id) (m : Option Mem) (hs : Settled i m)
+    (P : Store) (e : Event) (hde : e.deleted = false) : Settled i (step decls m P e).mem := by
+  obtain ⟨mem, rfl, hor⟩ := hs
+  unfold step
+  by_cases hsup : e.suppressed = true
+  · simp only [hsup, if_true, hde, Bool.false_eq_true, if_false, recall]
+    exact ⟨mem, rfl, hor⟩
+  · simp only [hsup, Bool.false_eq_true, if_false, hde, recall]
+    refine ⟨_, rfl, ?_⟩
+    rcases hor with hf | hr
+    · left; simp [hf]
+    · by_cases hc : (cycle (cfgOf decls mem e) P e.now e.now1 e.exec).closed = true
+      · left; simp [hc]
+      · right; simp [hc, hr]
+
+/-- An invoked handler whose outcome is final is among the pass's final outcomes. -/
+theorem invoked_final_in_finals (cfg : Cfg) (P : Store) (now now1 : Tick) (exec : Id → Nat → Outcome)
+    (i : Id) (n : Nat) (hinv : (i, n) ∈ (cycle cfg P now now1 exec).invoked) (hfin : (exec i n).final = true) :
+    i ∈ cycleFinals cfg P now exec := by
+  by_cases hr : handlerReasons.contains cfg.reason = true
+  · by_cases he : cfg.selected.isEmpty = true
+    · rw [cycle_no_handlers cfg P now now1 exec hr he] at hinv; simp at hinv
+    · have he' : cfg.selected.isEmpty = false := by simpa using he
+      rw [cycle_main cfg P now now1 exec hr he'] at hinv
+      simp only at hinv
+      unfold cycleFinals
+      simp only [hr, he', Bool.not_true, Bool.or_self, Bool.false_eq_true, if_false]
+      have hpre : preState cfg P now =
+          (if hasExtras (withHandlers (fromStorage P cfg.owned) cfg.selected cfg.reason now) (known cfg) cfg.reason
+           then repurpose (withHandlers (fromStorage P cfg.owned) cfg.selected cfg.reason now) cfg.selected cfg.reason
+           else withHandlers (fromStorage P cfg.owned) cfg.selected cfg.reason now) := rfl
+      rw [← hpre]
+      simp only [execOnce, List.mem_map, List.mem_filter] at hinv
+      obtain ⟨j, ⟨hjpl, hjok⟩, hjeq⟩ := hinv
+      simp only [Prod.mk.injEq] at hjeq
+      obtain ⟨rfl, rfl⟩ := hjeq
+      simp only [List.mem_filter]
+      refine ⟨hjpl, ?_⟩
+      cases hst : preState cfg P now j with
+      | none => simp [hst] at hjok
+      | some hs =>
+        simp only [hst, Bool.not_eq_true'] at hjok
+        simp only [hjok, Bool.false_eq_true, if_false]
+        simpa [retriesOf, hst] using hfin
+  · have hr' : handlerReasons.contains cfg.reason = false := by simpa using hr
+    rw [cycle_not_handler_reason cfg P now now1 exec hr'] at hinv
+    simp at hinv
+
+/-- THE PROPERTY'S SECOND CLAUSE, unguarded: after the step in which a resume handler reached a final
+    outcome (success or permanent failure), it is never invoked again for this object in this process —
+    whatever the later events are (re-listings, reconnects, edits, label flips, deletion marks) and
+    WHATEVER VIEW of the stored progress each of them carries (stale bodies after the consistency
+    timeout, lost patches, records purged with a superseded cause). -/
+theorem completed_never_again (decls : List Decl) (d : Decl) (hd : d ∈ decls)
+    (hres : ∀ d' ∈ decls, d'.id = d.id → d'.gate.initial = true)
+    (m : Option Mem) (P : Store) (e : Event) (hde : e.deleted = false) (n : Nat)
+    (hinv : (d.id, n) ∈ (step decls m P e).invoked) (hfin : (e.exec d.id n).final = true)
+    (rest : List (Event × Store)) (hdel : ∀ ep ∈ rest, ep.1.deleted = false) :
+    ∀ l ∈ runViews decls (step decls m P e).mem rest, ∀ k, (d.id, k) ∉ l := by
+  -- after the completing step the handler is settled
+  have hset : Settled d.id (step decls m P e).mem := by
+    have hsup : e.suppressed = false := by
+      cases hs : e.suppressed
+      · rfl
+      · unfold step at hinv; simp [hs] at hinv
+    unfold step at hinv ⊢
+    simp only [hsup, Bool.false_eq_true, if_false] at hinv ⊢
+    simp only [hde, Bool.false_eq_true, if_false]
+    refine ⟨_, rfl, ?_⟩
+    by_cases hc : (cycle (cfgOf decls (recall m e) e) P e.now e.now1 e.exec).closed = true
+    · left; simp [hc]
+    · right
+      simp only [hc, Bool.false_eq_true, if_false, List.mem_append, List.mem_filter]
+      right
+      refine ⟨invoked_final_in_finals _ P e.now e.now1 e.exec d.id n hinv hfin, ?_⟩
+      simp only [isInitial, List.any_eq_true]
+      exact ⟨d, hd, by simp [hres d hd rfl]⟩
+  -- and stays settled, hence never invoked, along any continuation
+  generalize (step decls m P e).mem = m' at hset
+  induction rest generalizing m' with
+  | nil => intro l hl; simp [runViews] at hl
+  | cons ep rest ih =>
+    obtain ⟨e', P'⟩ := ep
+    intro l hl k
+    simp only [runViews, List.mem_cons] at hl
+    rcases hl with rfl | hl
+    · exact settled_not_invoked decls d.id hres m' hset P' e' k
+    · exact ih (fun ep hep => hdel ep (by simp [hep])) _
+        (settled_preserved decls d.id m' hset P' e' (hdel (e', P') (by simp))) l hl k
+
+/-- `run` (every event sees what the previous pass wrote) is one instance of `runViews`. -/
+theorem run_eq_runViews (decls : List Decl) :
+    ∀ (events : List Event) (m : Option Mem) (P : Store),
+      ∃ views : List (Event × Store), views.map (·.1) = events ∧ run decls m P events = runViews decls m views := by
+  intro events
+  induction events with
+  | nil => intro m P; exact ⟨[], rfl, rfl⟩
+  | cons e rest ih =>
+    intro m P
+    obtain ⟨vs, hv, hr⟩ := ih (step decls m P e).mem (step decls m P e).P
+    exact ⟨(e, P) :: vs, by simp [hv], by simp [run, runViews, hr]⟩
+
+/-- … in particular along the continuous history. -/
+theorem completed_never_again_run (decls : List Decl) (d : Decl) (hd : d ∈ decls)
+    (hres : ∀ d' ∈ decls, d'.id = d.id → d'.gate.initial = true)
+    (m : Option Mem) (P : Store) (e : Event) (hde : e.deleted = false) (n : Nat)
+    (hinv : (d.id, n) ∈ (step decls m P e).invoked) (hfin : (e.exec d.id n).final = true)
+    (rest : List Event) (hdel : ∀ e' ∈ rest, e'.deleted = false) :
+    ∀ l ∈ run decls (step decls m P e).mem (step decls m P e).P rest, ∀ k, (d.id, k) ∉ l := by
+  obtain ⟨vs, hv, hr⟩ := run_eq_runViews decls rest (step decls m P e).mem (step decls m P e).P
+  rw [hr]
+  refine completed_never_again decls d hd hres m P e hde n hinv hfin vs ?_
+  intro ep hep
+  exact hdel ep.1 (by rw [← hv]; exact List.mem_map_of_mem hep)
+
+/-- Regression of the repaired finding F9: `r1` (label-filtered) completes, its sibling `r2` is still
+    retrying; a label+spec edit makes `r1` stop matching while the reason turns to *update*, so `r1`'s
+    finished record is purged with the superseded progress; the label flips back — and `r1` is NOT
+    invoked a second time (before 6c4463d the last pass was `[("r1", 0), ("r2", 2)]`). -/
+theorem flipflop_regression :
+    let ok : Outcome := { final := true, delay := none, error := false, subrefs := [] }
+    let again : Outcome := { final := false, delay := some 0, error := true, subrefs := [] }
+    let ev (diff m1 : Bool) : Event :=
+      { byListing := false, deleted := false, marked := false, blocked := false, oldAbsent := false,
+        diffNonEmpty := diff, suppressed := false,
+        matchF := fun i => if i = "r1" then m1 else true,
+        limits := fun _ => ⟨none, none⟩, lifecycle := .allAtOnce, now := 0, now1 := 0,
+        exec := fun i _ => if i = "r2" then again else ok }
+    run [⟨"r1", ⟨none, true, false⟩⟩, ⟨"r2", ⟨none, true, false⟩⟩]
+        (some { noticed := true, fullyHandled := false }) (fun _ => none)
+        [ev false true, ev true false, ev false true]
+      = [[("r1", 0), ("r2", 0)], [("r2", 1)], [("r2", 2)]] := by decide
+
+/-- The same for a stale view (the repaired N1): the second event carries a body WITHOUT the record of
+    the just-finished `r1` (an older version processed after the consistency timeout): `r1` is not repeated. -/
+theorem stale_view_regression :
+    let ok : Outcome := { final := true, delay := none, error := false, subrefs := [] }
+    let again : Outcome := { final := false, delay := some 0, error := true, subrefs := [] }
+    let ev : Event :=
+      { byListing := false, deleted := false, marked := false, blocked := false, oldAbsent := false,
+        diffNonEmpty := true, suppressed := false, matchF := fun _ => true,
+        limits := fun _ => ⟨none, none⟩, lifecycle := .allAtOnce, now := 0, now1 := 0,
+        exec := fun i _ => if i = "r2" then again else ok }
+    runViews [⟨"r1", ⟨none, true, false⟩⟩, ⟨"r2", ⟨none, true, false⟩⟩]
+        (some { noticed := true, fullyHandled := false })
+        [(ev, fun _ => none), (ev, fun _ => none), (ev, fun _ => none)]
+      = [[("r1", 0), ("r2", 0)], [("r2", 0)], [("r2", 0)]] := by decide
+
+-- non-vacuity of `completed_never_again`: the hypotheses hold for "r1" in the first step of the history above
 example :
     let ok : Outcome := { final := true, delay := none, error := false, subrefs := [] }
     let again : Outcome := { final := false, delay := some 0, error := true, subrefs := [] }
-    let ev (diff : Bool) (k : Nat) : Event :=
+    let ev : Event :=
       { byListing := false, deleted := false, marked := false, blocked := false, oldAbsent := false,
-        diffNonEmpty := diff, suppressed := false, matchF := fun _ => true,
+        diffNonEmpty := true, suppressed := false, matchF := fun _ => true,
         limits := fun _ => ⟨none, none⟩, lifecycle := .allAtOnce, now := 0, now1 := 0,
-        exec := fun i n => if i = "r2" ∧ n < k then again else ok }
+        exec := fun i _ => if i = "r2" then again else ok }
     let decls : List Decl := [⟨"r1", ⟨none, true, false⟩⟩, ⟨"r2", ⟨none, true, false⟩⟩]
-    let mem : Mem := { noticed := true, fullyHandled := false }
-    run decls (some mem) (fun _ => none) [ev false 2, ev true 2, ev false 2, ev false 2]
-      = [[("r1", 0), ("r2", 0)], [("r2", 1)], [("r2", 2)], []] ∧
-    StableWhileOpen decls ⟨"r1", ⟨none, true, false⟩⟩
-      (step decls (some mem) (fun _ => none) (ev false 2)).mem
-      (step decls (some mem) (fun _ => none) (ev false 2)).P [ev true 2, ev false 2, ev false 2] := by
-  refine ⟨by decide, ?_⟩
-  simp [StableWhileOpen, Stable]
+    let s := step decls (some { noticed := true, fullyHandled := false }) (fun _ => none) ev
+    ("r1", 0) ∈ s.invoked ∧ (ev.exec "r1" 0).final = true ∧ s.closed = false ∧
+      s.mem = some { noticed := true, fullyHandled := false, resumed := ["r1"] } := by
+  refine ⟨by decide, by decide, by decide, by decide⟩
 
 -- non-vacuity of `eligible_invoked`: a listed, handled-before, unchanged object with one resume handler
 example :
